@@ -15,7 +15,7 @@ CLAUSES = {
 }
 BOUNDS = {
     "quick": "induction: period 1..3 x numrec 0..3 with Nsteps and step unbounded (<= 1e9); bounded runs: Nsteps 1..6, period 1..3 steps, numrec 0..3 (all 72 triples via solver-enumerated forks), sparse+dense, with/without particle variable, forward+reversed; positions/velocity symbolic",
-    "thorough": "Nsteps 1..12, period 1..5, numrec 0..5 (360 triples), both layouts, both directions",
+    "thorough": "Nsteps 1..8, period 1..4, numrec 0..4 (160 triples) x release step x death step x skip_initial, both layouts, both directions",
 }
 ASSUMES = ["output period is a whole number of time steps; duration a whole number of steps", "one particle released at a symbolic step 0..Nsteps-1 (values symbolic; records before the release are empty), constant symbolic velocity, one death at a symbolic step (or never)", "skip_initial symbolic (the initial record is then neither written nor counted)"]
 OUTSIDE = "warm start (C08); NetCDF library internals (stub validated against real netCDF4 by the replays)"
@@ -31,7 +31,7 @@ def scenarios(tier):
                 if q and layout == "dense" and rev:
                     continue
                 out.append(dict(name=f"{layout}-{'rev' if rev else 'fwd'}-{'pv' if pv else 'nopv'}", fn="run",
-                                params=dict(layout=layout, rev=rev, pv=pv, nmax=6 if q else 12, pmax=3 if q else 5, rmax=3 if q else 5), cost=10))
+                                params=dict(layout=layout, rev=rev, pv=pv, nmax=6 if q else 8, pmax=3 if q else 4, rmax=3 if q else 4), cost=10, max_paths=80000))
     out.append(dict(name="file-numbering", fn="numbering", params={}, cost=1))
     for P in ((1, 2, 3) if q else (1, 2, 3, 4, 5, 7)):
         for R in ((0, 1, 2, 3) if q else (0, 1, 2, 3, 4, 5)):
